@@ -98,6 +98,36 @@ bool send_all(NativeSocket socket, const char* data, std::size_t length) {
     return true;
 }
 
+// Reverses the daemon's escaping of field values (backslash-n, backslash-r, double backslash), restoring multi-line values.
+std::string unescape_field_value(const std::string& value) {
+    std::string plain;
+    plain.reserve(value.size());
+    for (std::size_t index = 0; index < value.size(); ++index) {
+        const char ch = value[index];
+        if (ch != '\\' || index + 1 >= value.size()) {
+            plain.push_back(ch);
+            continue;
+        }
+        const char code = value[++index];
+        switch (code) {
+            case '\\':
+                plain.push_back('\\');
+                break;
+            case 'n':
+                plain.push_back('\n');
+                break;
+            case 'r':
+                plain.push_back('\r');
+                break;
+            default:
+                plain.push_back('\\');
+                plain.push_back(code);
+                break;
+        }
+    }
+    return plain;
+}
+
 bool recv_line(NativeSocket socket, std::string& line) {
     line.clear();
     char ch = 0;
@@ -181,7 +211,7 @@ ControlResponse parse_response(NativeSocket socket, const ControlTransferProgres
                 break;
             }
         } else {
-            response.fields[key] = value;
+            response.fields[key] = unescape_field_value(value);
         }
     }
 
